@@ -519,6 +519,10 @@ public:
     int out_dir = -1, out_sub = -1;
     long hops = 0;
     double out_pos[3] = {0, 0, 0};
+    // position and remaining optical depth at the previous hand-over, and the
+    // number of consecutive hand-overs at which neither changed
+    double last_out[4] = {0, 0, 0, 0};
+    long still_hops = 0;
   };
   std::vector< Packet > packets; // index = id - id_base
   uint64_t id_base = 1, next_id = 1;
@@ -1041,6 +1045,43 @@ public:
       }
       pk->out_dir = (int)x;
       pk->out_sub = task_of_fiber().subgrid;
+      if (getenv("EION_DEBUG_HOPS") && pk->hops > 5000 && pk->hops < 5012)
+        fprintf(stderr,
+                "hop %ld of packet %llu: leaves subgrid %d through direction "
+                "%d at %.17g %.17g %.17g dir %.17g %.17g %.17g tau %.17g\n",
+                (long)pk->hops, (unsigned long long)p.get_verif_id(),
+                pk->out_sub, pk->out_dir, p.get_position()[0],
+                p.get_position()[1], p.get_position()[2], p.get_direction()[0],
+                p.get_direction()[1], p.get_direction()[2],
+                p.get_target_optical_depth());
+      // a packet that is handed on again and again without moving and
+      // without using up optical depth is caught in a cycle of subgrids (each
+      // one finds it outside and passes it on): it will never terminate
+      {
+        const CoordinateVector<> pos = p.get_position();
+        if (pk->hops > 0 && pos[0] == pk->last_out[0] &&
+            pos[1] == pk->last_out[1] && pos[2] == pk->last_out[2] &&
+            p.get_target_optical_depth() == pk->last_out[3]) {
+          if (++pk->still_hops > 64) {
+            fail("packet-never-ends",
+                 sfmt("packet %llu has been handed from subgrid to subgrid "
+                      "%ld times in a row without moving (position %.17g "
+                      "%.17g %.17g, direction %.6f %.6f %.6f, last subgrids "
+                      "%d -> direction %d): it never terminates",
+                      (unsigned long long)p.get_verif_id(),
+                      (long)pk->still_hops, pos[0], pos[1], pos[2],
+                      p.get_direction()[0], p.get_direction()[1],
+                      p.get_direction()[2], pk->out_sub, pk->out_dir));
+            break;
+          }
+        } else {
+          pk->still_hops = 0;
+        }
+        pk->last_out[0] = pos[0];
+        pk->last_out[1] = pos[1];
+        pk->last_out[2] = pos[2];
+        pk->last_out[3] = p.get_target_optical_depth();
+      }
       if (++pk->hops > 20000000)
         fail("packet-never-ends",
              sfmt("packet %llu was handed over more than 2e7 times",
